@@ -272,11 +272,11 @@ def run_check(pid: str, tier: str, seed: int, jobs: int) -> int:
         % (pid, tier, seed, agg["evaluations"], len(agg["hashes"]), nviol, len(reproduced), suppressed,
            agg["inconclusive"], agg["shards_ok"], len(specs) - nwit, time.time() - t0)
     )
+    for m in agg["crash_msgs"][:3]:
+        print("worker crashed:\n" + m)
     if nviol:
         return 1
     if bad_shards or short:
-        for m in agg["crash_msgs"][:3]:
-            print("worker crashed:\n" + m)
         print("INCONCLUSIVE property=%s: shards timeout=%d crash=%d; minimums missed: %s"
               % (pid, agg["shards_timeout"], agg["shards_crash"], short))
         return 2
